@@ -251,6 +251,15 @@ theorem parseAreaComp_post (sph : Bool) (corners : List (P2 R)) (model : String)
     extract_lets j1
     pmi_guard j1; rename_i g1
     exact PostI.pure ⟨hrng, bor_bne_false g1⟩
+  · refine PostI.bind (PostI.triv_lift _) (fun density _ => ?_)
+    refine PostI.bind (PostI.triv_lift _) (fun comps _ => ?_)
+    refine PostI.bind (PostI.triv_lift _) (fun maxWater _ => ?_)
+    refine PostI.bind (PostI.triv_lift _) (fun op _ => ?_)
+    refine PostI.bind (PostI.triv_lift _) (fun cutoff _ => ?_)
+    refine PostI.bind (PostI.triv_lift _) (fun lith _ => ?_)
+    split
+    · exact PostI.pmErr
+    · exact PostI.pure hrng
   · exact PostI.pmErr
 
 theorem parseAreaVel_post (sph : Bool) (kind : Nat) (corners : List (P2 R)) (model : String) (c : Cur) :
